@@ -18,13 +18,16 @@ def kind_of(sim):
     return "SIS" if sim in SIS_CONT + SIS_DISC else "SIR"
 
 
+RULE_SIM = "discrete_SIR(recovery rule)"      # discrete_SIR with a user test_recovery: a node recovers the second time it is asked
+
+
 def is_discrete(sim):
-    return sim in SIR_DISC + SIS_DISC
+    return sim in SIR_DISC + SIS_DISC or sim == RULE_SIM
 
 
 def supports_R0(sim):
     return sim in ("fast_SIR", "Gillespie_SIR", "fast_nonMarkov_SIR", "simple_contagion_SIR", "complex_contagion_SIR",
-                   "discrete_SIR", "basic_discrete_SIR", "percolation_based_discrete_SIR")
+                   "discrete_SIR", "basic_discrete_SIR", "percolation_based_discrete_SIR", RULE_SIM)
 
 
 def supports_weights(sim):
@@ -155,6 +158,13 @@ def call_sim(EoN, sim, G, sc, full):
                                                return_full_data=full)
     if sim == "discrete_SIR":
         return EoN.discrete_SIR(G, args=(p,), **kw)
+    if sim == RULE_SIM:
+        asked = {}
+
+        def test_recovery(node):
+            asked[node] = asked.get(node, 0) + 1
+            return asked[node] >= 2
+        return EoN.discrete_SIR(G, args=(p,), test_recovery=test_recovery, **kw)
     if sim == "basic_discrete_SIR":
         return EoN.basic_discrete_SIR(G, p, **kw)
     if sim == "percolation_based_discrete_SIR":
